@@ -496,7 +496,37 @@ def run(ctx, rep):
         batch = f.posparams[0]
         loops = [n for n in own_nodes(f.node) if isinstance(n, ast.For) and isinstance(n.iter, ast.Name) and n.iter.id == batch]
         probs = []
-        if len(loops) != 1 or not isinstance(loops[0].target, ast.Name):
+        comp = None
+        if not loops:
+            # the comprehension form:  return [<one application of the per-string function> for x in batch]  -- one output entry
+            # per element by construction (no filter on the outer generator)
+            for r in own_nodes(f.node):
+                if isinstance(r, ast.Return) and isinstance(r.value, ast.ListComp) and r.value.generators \
+                        and isinstance(r.value.generators[0].iter, ast.Name) and r.value.generators[0].iter.id == batch \
+                        and isinstance(r.value.generators[0].target, ast.Name) and not r.value.generators[0].ifs:
+                    comp = r.value
+        if comp is not None:
+            calls = [c for c in ast.walk(comp) if isinstance(c, ast.Call) and unparse(c.func) == per.name]
+            if len(calls) != 1:
+                probs.append("per-string function %s is not applied exactly once per element" % per.name)
+            else:
+                c = calls[0]
+                bound = {}
+                for i, a in enumerate(c.args):
+                    bound[per.posparams[i]] = a
+                for k in c.keywords:
+                    bound[k.arg] = k.value
+                if unparse(bound.get(per.posparams[0])) != comp.generators[0].target.id:
+                    probs.append("the per-string function is not applied to the element itself")
+                if unparse(bound.get(vparam)) != vparam:
+                    probs.append("vocabulary is not forwarded unchanged")
+                for x in extra:
+                    if unparse(bound.get(x)) != x:
+                        probs.append("%s is not forwarded unchanged" % x)
+                et = bound.get("enc_type")
+                if not (isinstance(et, ast.Constant) and et.value == "one_hot"):
+                    probs.append("enc_type is not 'one_hot'")
+        elif len(loops) != 1 or not isinstance(loops[0].target, ast.Name):
             probs.append("no single plain loop over the batch")
         else:
             lp = loops[0]
